@@ -83,6 +83,24 @@ theorem single_stage_unmarked (prog : List Instr) (k : Nat) (row : ListRow)
     (h : (listing prog (singleMarks none))[k]? = some row) : row.stage = "" :=
   (stage_sound prog _ k row h).2 (by simp [singleMarks, singleLatch])
 
+/-- A five-stage simulation that ran to completion without an exit call (the pipeline has drained: `is_done()` because the
+    registers are empty and the program counter holds no instruction) marks at most the instruction that retired last: every
+    row is unmarked or marked `WB`. -/
+theorem drained_pipeline_marks (p : Pipe.PSt) (hd : Pipe.isDone p = true) (hx : p.st.exitCode = none) (a : Int) :
+    stageOf (fiveMarks p) a = "" ∨ stageOf (fiveMarks p) a = "WB" := by
+  have h : p.l0 = none ∧ p.l1 = none ∧ p.l2 = none ∧ p.l3 = none := by
+    simp [Pipe.isDone, hx] at hd
+    exact ⟨hd.1.1.1.1, hd.1.1.1.2, hd.1.1.2, hd.1.2⟩
+  rw [five_stage_mark]
+  simp only [holds, h.1, h.2.1, h.2.2.1, h.2.2.2, Option.map_none]
+  by_cases h4 : (p.l4.map (·.addr) == some a) = true
+  · right; simp [h4]
+  · left; simp [h4]
+
+/-- Before the first step nothing is marked (all registers are empty). -/
+theorem power_on_unmarked (st : St) (hz : Bool) (a : Int) : stageOf (fiveMarks (Pipe.PSt.init st hz)) a = "" := by
+  rw [five_stage_mark]; simp [holds, Pipe.PSt.init]
+
 /-! ### non-vacuity -/
 
 -- a stalled decode: the instruction at 8 sits in IF/ID and ID/EX, its producer at 4 in EX/MEM
